@@ -34,7 +34,7 @@ def translate_users(src_root):
     loops = [s for s in b if isinstance(s, ast.For)]
     if len(loops) != 1: raise Unsupported("crossfold_users: one loop expected")
     k = b.index(loops[0])
-    expect(b[:k], ["rng = random_generator(rng)", "users = data.users.ids()", "rows = np.arange(len(users))", "rng.shuffle(rows)", "test_sets = np.array_split(rows, partitions)",
+    expect(b[:k], ["rng = random_generator(rng)", "users = data.users.ids()", "rows = np.arange(len(users))", ("rng.shuffle(rows)", "rows = rng.permutation(rows)"), "test_sets = np.array_split(rows, partitions)",
                    "df = data.interaction_matrix(format='pandas', original_ids=True)"], "crossfold_users")
     if U(loops[0].target) != "(i, ts)" or U(loops[0].iter) != "enumerate(test_sets)" or b[k + 1:]: raise Unsupported("crossfold_users: loop header")
     expect(strip(loops[0].body), ["test_us = users[ts]", "yield _make_split(data, df, test_us, method, test_only=test_only)"], "crossfold_users loop")
@@ -109,9 +109,11 @@ def body_of(mod, name):
     return fn, strip(fn.body)
 
 def expect(stmts, texts, where):
+    """the statements, as text, must be the listed ones in order; a listed entry may be a tuple of equivalent forms"""
     got = [U(s) for s in stmts]
-    if got != texts:
-        bad = next((g for g, t in zip(got, texts) if g != t), None) or (got[len(texts)] if len(got) > len(texts) else "a statement is missing")
+    same = lambda g, t: g in t if isinstance(t, tuple) else g == t
+    if len(got) != len(texts) or not all(same(g, t) for g, t in zip(got, texts)):
+        bad = next((g for g, t in zip(got, texts) if not same(g, t)), None) or (got[len(texts)] if len(got) > len(texts) else "a statement is missing")
         raise Unsupported(f"{where}: `{bad[:90]}`")
 
 def translate(src_root):
@@ -140,7 +142,7 @@ def makePairT {α} (df : List α) (test_is : List Nat) (test_only : Bool) : Pair
     loops = [s for s in b if isinstance(s, ast.For)]
     if len(loops) != 1: raise Unsupported("crossfold_records: one loop expected")
     k = b.index(loops[0])
-    expect(b[:k], ["rng = random_generator(rng)", "df = data.interactions().pandas(ids=True)", "n = len(df)", "rows = np.arange(n)", "rng.shuffle(rows)",
+    expect(b[:k], ["rng = random_generator(rng)", "df = data.interactions().pandas(ids=True)", "n = len(df)", "rows = np.arange(n)", ("rng.shuffle(rows)", "rows = rng.permutation(rows)"),
                    "test_sets = np.array_split(rows, partitions)"], "crossfold_records")
     if U(loops[0].target) != "ts" or U(loops[0].iter) != "test_sets" or b[k + 1:]: raise Unsupported("crossfold_records: loop header")
     expect(loops[0].body, ["yield _make_pair(data, df, ts, test_only=test_only)"], "crossfold_records loop")
@@ -155,7 +157,7 @@ def crossfoldRecordsT {α} (df : List α) (perm : List Nat) (partitions : Nat) (
     loops = [s for s in b if isinstance(s, ast.For)]
     if len(loops) != 1: raise Unsupported("_disjoint_samples: one loop expected")
     k = b.index(loops[0])
-    expect(b[:k], ["xs = np.arange(n, dtype=np.int32)", "rng.shuffle(xs)"], "_disjoint_samples")
+    expect(b[:k], ["xs = np.arange(n, dtype=np.int32)", ("rng.shuffle(xs)", "xs = rng.permutation(xs)")], "_disjoint_samples")
     if U(loops[0].target) != "i" or U(loops[0].iter) != "range(reps)" or b[k + 1:]: raise Unsupported("_disjoint_samples: loop header")
     expect(loops[0].body, ["start = i * size", "end = start + size", "yield xs[start:end]"], "_disjoint_samples loop")
     disjoint = ("""/-- `_disjoint_samples`: consecutive windows of the shuffled index array -/
